@@ -98,7 +98,7 @@ func genRowPipelineOp(r *RNG) Op {
 	op.Img.W = r.Pick(1, 15, 16, 17, 31, 32, 33, 47, 48, 64, 80, 96)
 	op.Img.H = r.Pick(49, 50, 63, 64, 65, 80, 96, 97, 112, 128, 144)
 	switch op.Img.Type {
-	case "paletted", "nrgba64":
+	case "paletted", "nrgba64", "nrgba64sub", "palsub":
 		op.Img.Type = "nrgba"
 	}
 	op.Opt = GenLossyOpts(r, 5, false)
